@@ -79,7 +79,16 @@ where
     info!("Tcp server running => {}|{}|{}:{}", config.protocol, config.cipher, config.host, config.port);
     match (&config.ssl, &config.ws) {
         (None, ws_config) => {
-            while let Ok((inbound, _)) = listener.accept().await {
+            loop {
+                // a failed accept (e.g. out of descriptors for a moment) concerns that connection only
+                let inbound = match listener.accept().await {
+                    Ok((inbound, _)) => inbound,
+                    Err(e) => {
+                        error!("[tcp] accept failed: {}", e);
+                        tokio::time::sleep(std::time::Duration::from_millis(50)).await;
+                        continue;
+                    }
+                };
                 if ws_config.is_some() {
                     tokio::spawn(template::tcp::accept_websocket_then_replay(inbound, new_codec(context.as_ref())?));
                 } else {
@@ -92,22 +101,34 @@ where
             let key = PrivateKeyDer::from_pem_file(ssl_config.key_file.as_str())?;
             let tls_config = rustls::ServerConfig::builder().with_no_client_auth().with_single_cert(vec![cert], key)?;
             let tls_acceptor = TlsAcceptor::from(Arc::new(tls_config));
-            while let Ok((inbound, _)) = listener.accept().await {
-                let codec = new_codec(context.as_ref())?;
-                match tls_acceptor.accept(inbound).await {
-                    Ok(inbound) => {
-                        if ws_config.is_some() {
-                            tokio::spawn(template::tcp::accept_websocket_then_replay(inbound, new_codec(context.as_ref())?));
-                        } else {
-                            tokio::spawn(template::tcp::relay(inbound, codec));
-                        }
+            loop {
+                let inbound = match listener.accept().await {
+                    Ok((inbound, _)) => inbound,
+                    Err(e) => {
+                        error!("[tcp] accept failed: {}", e);
+                        tokio::time::sleep(std::time::Duration::from_millis(50)).await;
+                        continue;
                     }
-                    Err(e) => error!("[tcp] tls handshake failed: {}", e),
-                }
+                };
+                let codec = new_codec(context.as_ref())?;
+                let tls_acceptor = tls_acceptor.clone();
+                let over_websocket = ws_config.is_some();
+                // the tls handshake runs in the connection's own task: a peer that stalls it holds up nobody else
+                tokio::spawn(async move {
+                    match tls_acceptor.accept(inbound).await {
+                        Ok(inbound) => {
+                            if over_websocket {
+                                template::tcp::accept_websocket_then_replay(inbound, codec).await
+                            } else {
+                                template::tcp::relay(inbound, codec).await
+                            }
+                        }
+                        Err(e) => error!("[tcp] tls handshake failed: {}", e),
+                    }
+                });
             }
         }
     }
-    Ok(())
 }
 
 async fn startup_quic<RefContext, Context, NewCodec, Codec>(
